@@ -129,7 +129,7 @@ def gen_join_shape(rng, name='wf', force=None):
     return P
 
 
-def gen_reverse(rng, name='rwf'):
+def gen_reverse(rng, name='rwf', p_defaults=0.2):
     """Random requires-DAG; returns (P, list of task names)."""
     n = rng.randint(3, 8)
     names = ['r%d' % i for i in range(n)]
@@ -145,6 +145,10 @@ def gen_reverse(rng, name='rwf'):
             if req:
                 T['policies']['requires'] = sorted(req)
         P['tasks'].append(T)
-    if rng.random() < 0.2:
+    if rng.random() < p_defaults:
         P['defaults'] = {'requires': [names[0]]}
+        if p_defaults > 0.2:
+            # the commonly required task is slow: whoever does not wait for
+            # it starts while it runs
+            P['tasks'][0]['async'] = True
     return P
